@@ -466,9 +466,11 @@ def cleanUpInverse (cfg : Cfg) (ps : PS) (cur : List Item) (nested : Bool) : Lis
 
 /-! ### `_handle_star` (1262-1367) -/
 
-def dropStars (it : It) : It :=
+/-- "consume duplicate stars" (1341-1354): skip a run of `*`; but a star directly before `(`
+    opens an extended group (`**(a)` is `*` then `*(a)`), so it is left in place. -/
+def dropStars (extend : Bool) (it : It) : It :=
   let (n, r) := dropWhileCount '*' it.rest it.idx
-  ⟨n, r⟩
+  if extend && n > it.idx && r.head? = some '(' then ⟨n - 1, '*' :: r⟩ else ⟨n, r⟩
 
 def Item.isDiv (win : Bool) : Item → Bool
   | .re r => r == Frag.globstarDiv win
@@ -492,17 +494,17 @@ def handleStar (cfg : Cfg) (ps : PS) (it : It) (cur : List Item) : PS × It × L
   -- (isGlob, capture, iterator, state)
   let (isGlob, capture, it, ps) : Bool × Bool × It × PS :=
     if ps.afterStart && ps.globstar && !ps.inList then
-      -- second (and third) star
-      let (skip, capture, it) : Bool × Bool × It :=
+      -- second (and third) star; `prev` = iterator just before the last star read
+      let (skip, capture, it, prev) : Bool × Bool × It × It :=
         match it.next with
-        | none => (true, capture0, it)
+        | none => (true, capture0, it, it)
         | some (c, it1) =>
-          if c != '*' then (true, capture0, it)
+          if c != '*' then (true, capture0, it, it)
           else if cfg.globstarlong then
             match it1.next with
-            | none => (false, capture0, it1)
-            | some (c2, it2) => if c2 != '*' then (false, capture0, it1) else (false, false, it2)
-          else (false, capture0, it1)
+            | none => (false, capture0, it1, it)
+            | some (c2, it2) => if c2 != '*' then (false, capture0, it1, it) else (false, false, it2, it1)
+          else (false, capture0, it1, it)
       if skip then (false, capture, it, ps)
       else
         match it.next with
@@ -517,12 +519,13 @@ def handleStar (cfg : Cfg) (ps : PS) (it : It) (cur : List Item) : PS × It × L
               (true, capture, it1.advance 1, { ps with matchbase := false })
             | .stop => (true, capture, it1, ps)
           else if c = '/' then (true, capture, it1, { ps with matchbase := false })
+          else if c = '(' && cfg.extend then (false, capture, prev, ps)
           else (false, capture, it, ps)
     else (false, capture0, it, ps)
   let globstar := if capture then Re.gcap globstar else globstar
   if !isGlob then
     let (value, it) :=
-      if ps.afterStart then (Re.cat cfg.needChar star, dropStars it) else (star, it)
+      if ps.afterStart then (Re.cat cfg.needChar star, dropStars cfg.extend it) else (star, it)
     (ps.resetDirTrack, it, .re value :: cur)
   else
     let ps := ps.resetDirTrack
